@@ -39,13 +39,19 @@ def run(tier, seed):
     for viol in df['violations']:
         if viol['sig'].get('kind') == 'stale_or_damaged_resume_state_trusted':
             v.violation(dict(kind='metadata_kept_although_the_data_file_lost_the_chunks', case=viol['sig'].get('case')), viol.get('replay'))
+    # "absent or unreadable (and then ignored)": metadata that does not load - cut short, bits flipped, garbage - must not
+    # keep the transfer from succeeding
+    ur = vlib.run_vh_sharded(['resume-tamper', '-seed', str(seed), '-only', 'sidecar-truncate,sidecar-garbage,sidecar-bitflip', '-stride', '8' if tier == "quick" else '2', '-unreadable-ignored'], 6, timeout=1500)
+    for viol in ur['violations']:
+        if viol['sig'].get('property') == 'C05':
+            v.violation(viol['sig'], viol.get('replay'))
     # metadata against the file after resumed transfers outside the kill grid: leftovers of an attempt with another chunk
     # size (equal / different chunk count), and a sparse file beyond 4 GiB (chunk offsets cross 2^32)
     sp = vlib.run_vh_sharded(['xfer-special', '-seed', str(seed), '-groups', 'rechunk,largemeta,prepop,dupflip'], 6, timeout=1800)
     for viol in sp['violations']:
         if viol['sig'].get('property') == 'C05':
             v.violation(viol['sig'], viol.get('replay'))
-    v.coverage = dict(evaluations=res['behaviours'], distinct_nontrivial=res['distinct'], special_inputs=dict(runs=sp['behaviours'], outcomes=sp['extra'].get('outcomes')), child_hook_traces_validated_by_tlc=res['trace_stats'], data_file_lost_cases=df['behaviours'],
+    v.coverage = dict(evaluations=res['behaviours'], distinct_nontrivial=res['distinct'], special_inputs=dict(runs=sp['behaviours'], outcomes=sp['extra'].get('outcomes')), child_hook_traces_validated_by_tlc=res['trace_stats'], data_file_lost_cases=df['behaviours'], unreadable_metadata_cases=ur['behaviours'],
                       rule="one receiver process per (tree, streams, hook point, k-th hit, optional concurrent flush trigger); non-trivial = the process really died at the kill point",
                       samples=res['samples'][:6], outcomes=res['extra'].get('outcomes'),
                       observer=dict(transfers=ob['behaviours'], observations=ob['extra'].get('observations'), sidecar_states_compared=ob['extra'].get('sidecar_loads_compared')),
